@@ -83,21 +83,17 @@ theorem not_mem_ancestors_of_length (p q : Key) (h : q.length ≤ p.length) : p 
     simp at this; omega
 
 /-- the flat scheme is prefix-free when the digest contains no `/`: all paths have the same length -/
-theorem toPath_flat_prefixFree (c : StoreCCfg) (hf : c.flat = true) (hslash : ∀ k, '/' ∉ c.h k) (a b : Str) :
-    toPath c a ∉ ancestors (toPath c b) := by
+theorem toPath_flat_prefixFree (c : StoreCCfg) (hf : c.flat = true) (c0 : Char) (r : Str) (hp : c.path = c0 :: r) (hc : c0 ≠ '/')
+    (hslash : ∀ k, '/' ∉ c.h k) (a b : Str) : toPath c a ∉ ancestors (toPath c b) := by
   apply not_mem_ancestors_of_length
-  have hlen : ∀ k, (toPath c k).length = (stripSlash (c.path ++ "/0state_".toList ++ ".data".toList)).count '/' + 1 := by
+  have hlen : ∀ k, (toPath c k).length = (c.path ++ "/0state_".toList ++ ".data".toList).count '/' + 1 := by
     intro k
     simp only [toPath, splitSlash_length, pathStr, hf, ↓reduceIte, Nat.add_right_cancel_iff]
     have h0 : (c.h k).count '/' = 0 := List.count_eq_zero.2 (hslash k)
-    cases hp : c.path with
-    | nil => simp [stripSlash, List.count_append, h0]
-    | cons c1 r =>
-      by_cases hc : c1 = '/'
-      · subst hc; simp [stripSlash, List.count_append, h0]
-      · have hs : ∀ t : Str, stripSlash ((c1 :: r) ++ t) = (c1 :: r) ++ t := fun t => stripSlash_of_head _ c1 (r ++ t) rfl hc
-        simp only [List.append_assoc, hs]
-        simp [List.count_append, h0]
+    rw [stripSlash_of_head _ c0 (r ++ "/0state_".toList ++ c.h k ++ ".data".toList) (by rw [hp]; simp) hc]
+    generalize "/0state_".toList = A
+    generalize ".data".toList = B
+    simp [List.count_append, h0]
   rw [hlen a, hlen b]
   exact Nat.le_refl _
 
